@@ -50,6 +50,24 @@ def stmt_paths(stmts, facts, defs, flag, probe=None, opaque_loops=False):
                             yield r
                     else:
                         yield (oc, f2, d2)
+    elif isinstance(st, (ast.Assign, ast.AugAssign, ast.AnnAssign, ast.Delete)):
+        # a store to an attribute / subscript / tuple: no local is (re)defined in a way the facts depend on, except that locals
+        # bound by a tuple target are no longer what `defs` says
+        df = dict(defs)
+        for t in ast.walk(st):
+            if isinstance(t, ast.Name) and isinstance(t.ctx, (ast.Store, ast.Del)):
+                df.pop(t.id, None)
+        if probe is not None and not opaque_loops:
+            probe(st, facts)
+        for r in cont(facts, df):
+            yield r
+    elif isinstance(st, ast.Raise):
+        yield ("raise", facts, defs)
+    elif isinstance(st, ast.Assert):
+        for alt in alts_of(st.test, True):
+            for r in cont(facts | frozenset(expand(a, defs) for a in alt), defs):
+                yield r
+        yield ("raise", facts, defs)
     elif isinstance(st, ast.Return):
         yield (("return", st.value), facts, defs)
     elif isinstance(st, ast.Break):
